@@ -11,7 +11,7 @@ LEAN_MODULE = 'Proofs.C13'
 THEOREMS = ['Fsic.C13.' + n for n in [
     'term_re_group_order', 'matchAt_consumes', 'scanGo_spans', 'scanTerms_spans', 'split_yields_checked', 'unterminated_fence_swallows',
     'format_safe', 'format_safe_arity', 'format_fails_manual_field', 'format_fails_empty_field',
-    'format_drops_escaped_term', 'unpack_fails_without_equals', 'parseBody_errors', 'parse_error_classes',
+    'format_drops_escaped_term', 'unpack_fails_without_equals', 'format_fails_straddling_term', 'parseBody_errors', 'parse_error_classes',
     'parseScript_stops_at_first_error', 'pyInt_accepts']]
 RULE = ('(a) every string up to length L over the 26-character driving alphabet of the property (quick L=4, thorough '
         'L=5) plus lengths L+1..6 over six reduced alphabets chosen for regex interactions, enumerated exhaustively; '
@@ -44,7 +44,7 @@ FINDING_INPUTS = [
     'Y = 1/0', 'Y = CANARY()', '```\nCANARY()\n```', 'Y = print(1)', 'Y = {0}', 'Y = {}', 'Y = {{X}}', 'Y = { }',
     'Y = {[0]}', '1 = X', 'log = log(X)', 'Y = X\n```\nZ = W', '```', '(\n```\ny\n```\n)', 'as[1] = X', '{a} = X',
     '<e> = X', '`a` = X', '(Y X = Z)', 'Y = 1()', 'Y = X\nY = X', 'Y = X +', 'Y = X\n)', '  Y = X', 'Y = (X',
-    'Y = {X', 'if = X', 'Y = X[a]', 'Y = in[1]', '```\n(\n```\nY = X\n)', 'Y = max(X, 0)\nmax = 2', 'Y == X', '```\ns (= 1\n```\nY = X)',
+    'Y = {X', 'if = X', 'Y = X[a]', 'Y = in[1]', '```\n(\n```\nY = X\n)', 'Y = max(X, 0)\nmax = 2', 'Y == X', '```\ns (= 1\n```\nY = X)', 'Y`=`', 'Y = X[`a=1`]',
 ]
 
 
